@@ -128,11 +128,13 @@ def disk_guard():
 def build(pid, cfg, repo, race=False, fuzz=False):
     disk_guard()
     bdir, modfile, overlay = prepare_build(pid, cfg, repo)
-    out = os.path.join(bdir, "bin", pid + (".race" if race else "") + ".test")
+    out = os.path.join(bdir, "bin", pid + (".race" if race else "") + (".fuzz" if fuzz else "") + ".test")
     cmd = ["go", "test", "-c", "-vet=off", "-tags", "verif", "-overlay", overlay,
            "-modfile", modfile, "-o", out]
     if race:
         cmd.append("-race")
+    if fuzz:
+        cmd.append("-fuzz=Fuzz")  # coverage instrumentation for native fuzzing
     cmd.append("./" + cfg["pkg"] + "/")
     t0 = time.time()
     p = subprocess.run(cmd, cwd=os.path.join(repo, cfg["module"]), env=go_env(),
@@ -353,6 +355,117 @@ def write_evidence(pid, cfg, tier, seed, merged, wall, violations, extra_notes, 
     return ev
 
 
+
+FUZZ_PROGRESS = re.compile(r"fuzz: elapsed: \S+, execs: (\d+) \(\d+/sec\), new interesting: (\d+) \(total: (\d+)\)")
+FUZZ_FAIL = re.compile(r"--- FAIL: (Fuzz\w+)(?:/(\S+))?")
+FUZZ_WROTE = re.compile(r"Failing input written to (\S+)")
+
+
+def is_fuzz_corpus_file(path):
+    try:
+        with open(path, "rb") as f:
+            return f.read(16).startswith(b"go test fuzz v1")
+    except OSError:
+        return False
+
+
+def run_fuzz(pid, cfg, tier, binp, outdir, bdir, replay_file=None, scale=1.0):
+    """Native (coverage-guided) fuzz targets. Both tiers execute the seed corpus (f.Add entries
+    plus committed crashers under replays/<ID>/fuzz/<Target>/); the thorough tier adds a
+    time-boxed campaign. Returns (violations, infra, per_target_stats)."""
+    violations, infra, stats = [], [], {}
+    for fz in cfg.get("fuzz", []):
+        target = fz["target"]
+        if replay_file:
+            # replay files are named <Target>-<hash> or live in a directory named <Target>
+            base = os.path.basename(replay_file)
+            if not (base.startswith(target + "-") or os.path.basename(os.path.dirname(replay_file)) == target):
+                continue
+        cwd = os.path.join(outdir, "fuzz-" + target)
+        tdir = os.path.join(cwd, "testdata", "fuzz", target)
+        os.makedirs(tdir, exist_ok=True)
+        committed = os.path.join(VERIF, "replays", pid, "fuzz", target)
+        n_committed = 0
+        if replay_file:
+            shutil.copy(replay_file, os.path.join(tdir, "replay"))
+        elif os.path.isdir(committed):
+            for fn in sorted(os.listdir(committed)):
+                shutil.copy(os.path.join(committed, fn), os.path.join(tdir, fn))
+                n_committed += 1
+        e = dict(os.environ)
+        e.update({"VERIF_PROPERTY": pid, "VERIF_KNOWN": os.path.join(VERIF, "known_findings.json")})
+        for k, v in fz.get("env", {}).items():
+            e[k] = str(v)
+        logpath = os.path.join(outdir, "fuzz-%s.log" % target)
+        st = {"seed_corpus_runs": 0, "execs": 0, "interesting_total": 0, "new_interesting": 0,
+              "committed_crashers_replayed": n_committed, "campaign_seconds": 0}
+
+        def run(args, timeout):
+            with open(logpath, "a") as lf:
+                lf.write("\n$ " + " ".join(args) + "\n")
+                lf.flush()
+                try:
+                    p = subprocess.run(args, cwd=cwd, env=e, stdout=subprocess.PIPE, stderr=subprocess.STDOUT,
+                                       text=True, errors="replace", timeout=timeout)
+                    out, rc = p.stdout, p.returncode
+                except subprocess.TimeoutExpired as ex:
+                    out, rc = (ex.stdout or b"").decode(errors="replace") if isinstance(ex.stdout, bytes) else (ex.stdout or ""), 124
+                lf.write(out)
+            return rc, out
+
+        def report(out, phase):
+            m = FUZZ_FAIL.search(out)
+            name = m.group(2) if m and m.group(2) else None
+            src = None
+            w = FUZZ_WROTE.search(out)
+            if w:
+                src = os.path.join(cwd, w.group(1))
+            elif name and os.path.exists(os.path.join(tdir, name)):
+                src = os.path.join(tdir, name)
+            elif name and os.path.exists(os.path.join(committed, name)):
+                src = os.path.join(committed, name)
+            msg = ""
+            i = out.find("VERIF-FUZZ-VIOLATION")
+            if i >= 0:
+                msg = out[i + len("VERIF-FUZZ-VIOLATION"):i + 1500].strip()
+            else:
+                msg = "%s: target failed (panic, crash or timeout of the fuzz worker)\n%s" % (phase, out[-1500:])
+            if src is None:
+                src = logpath
+            elif os.path.abspath(src).startswith(cwd):
+                dst = os.path.join(outdir, "%s-%s" % (target, os.path.basename(src)))
+                shutil.copy(src, dst)
+                src = dst
+            violations.append((target, src, msg))
+
+        # --- seed corpus + committed crashers (deterministic, seconds)
+        rc, out = run([binp, "-test.run", "^%s$" % target, "-test.count=1", "-test.timeout", "600s", "-test.v"], 700)
+        st["seed_corpus_runs"] = out.count("--- PASS: %s/" % target) + out.count("--- FAIL: %s/" % target)
+        if rc == 124:
+            infra.append("%s: seed corpus run hit the time budget" % target)
+        elif rc != 0:
+            report(out, "seed corpus")
+        tcfg = fz.get(tier)
+        if rc == 0 and tcfg and not replay_file:
+            secs = max(5, int(tcfg.get("seconds", 60) * scale))
+            cache = os.path.join(bdir, "fuzzcache", target)
+            os.makedirs(cache, exist_ok=True)
+            rc, out = run([binp, "-test.run", "^%s$" % target, "-test.fuzz", "^%s$" % target, "-test.fuzzcachedir", cache,
+                           "-test.fuzztime", "%ds" % secs, "-test.parallel", str(tcfg.get("workers", 8)), "-test.timeout", "%ds" % (secs + 600)], secs + 700)
+            st["campaign_seconds"] = secs
+            for m in FUZZ_PROGRESS.finditer(out):
+                st["execs"], st["new_interesting"], st["interesting_total"] = int(m.group(1)), int(m.group(2)), int(m.group(3))
+            if rc == 124:
+                infra.append("%s: fuzz campaign hit the time budget" % target)
+            elif rc != 0:
+                if "--- FAIL" in out or "Failing input written" in out:
+                    report(out, "campaign")
+                else:
+                    infra.append("%s: fuzz campaign exited %d without a failing input (see %s)" % (target, rc, logpath))
+        stats[target] = st
+    return violations, infra, stats
+
+
 RAPID_OK = re.compile(r"\[rapid\] OK, passed (\d+) tests")
 
 
@@ -394,9 +507,30 @@ def main(argv):
         if binaries["race"] is None:
             log("INCONCLUSIVE property=%s reason=race-build-failed" % pid)
             return 2
+    fuzz_replay = None
+    if args.replay and is_fuzz_corpus_file(args.replay):
+        fuzz_replay = os.path.abspath(args.replay)
+    if cfg.get("fuzz") and (fuzz_replay or not args.replay) and not args.only:
+        binaries["fuzz"] = build(pid, cfg, repo, fuzz=True)
+        if binaries["fuzz"] is None:
+            log("INCONCLUSIVE property=%s reason=fuzz-build-failed" % pid)
+            return 2
     outdir = os.path.join(build_dir(pid, repo), "out")
     shutil.rmtree(outdir, ignore_errors=True)
     os.makedirs(outdir)
+    if fuzz_replay:
+        fv, fi, _ = run_fuzz(pid, cfg, args.tier, binaries["fuzz"], outdir, build_dir(pid, repo), replay_file=fuzz_replay)
+        for name, src, msg in fv:
+            log("--- %s: %s" % (name, msg))
+            log("VIOLATION property=%s replay=%s" % (pid, fuzz_replay))
+        if fv:
+            return 1
+        for i in fi:
+            log("INCONCLUSIVE property=%s reason=%s" % (pid, i))
+        if fi:
+            return 2
+        log("OK property=%s replay=%s" % (pid, fuzz_replay))
+        return 0
     replay = None
     if args.replay:
         rp = os.path.abspath(args.replay)
@@ -449,6 +583,17 @@ def main(argv):
             violations.append((name, src, st.get("violation_sig", "") + ": " + (st.get("violation_msg", "")[:1500])))
         else:
             infra.append("%s shard %d: exit %s without a recorded violation (see %s)" % (name, pr.shard, rc, pr.logpath))
+    # --- native fuzz targets
+    fuzz_stats = {}
+    if "fuzz" in binaries and not replay and (not violations or os.environ.get("VERIF_FUZZ_ALWAYS")):
+        fv, fi, fuzz_stats = run_fuzz(pid, cfg, args.tier, binaries["fuzz"], outdir, build_dir(pid, repo), scale=args.scale)
+        violations.extend(fv)
+        infra.extend(fi)
+        for target, st in fuzz_stats.items():
+            merged[target] = {"evaluations": st["execs"] + st["seed_corpus_runs"], "hashes": set(range(st["interesting_total"])),
+                              "classes": {}, "discards": {}, "counters": dict(("fuzz_" + k, v) for k, v in st.items()),
+                              "known_hits": {}, "samples": [], "violations": 0, "replayed": st["committed_crashers_replayed"],
+                              "violation_msgs": [], "replay_files": []}
     # --- generator health: a check whose cases are mostly discarded decides little
     for name, m in merged.items():
         tcfg = next((t for t in cfg["tests"] if t["name"] == name), {})
@@ -469,6 +614,8 @@ def main(argv):
             data = msg.encode()
         hh = hashlib.sha256(data).hexdigest()[:12]
         ext = ".json" if src.endswith(".json") else ".log"
+        if is_fuzz_corpus_file(src):
+            ext = ""
         dst = os.path.join(found_dir, "%s-%s%s" % (name, hh, ext))
         if os.path.abspath(src).startswith(os.path.join(VERIF, "replays")):
             dst = src
